@@ -292,14 +292,89 @@ class _YieldFromGenexp(ast.NodeTransformer):
         return ast.copy_location(ast.For(target=c.target, iter=c.iter, body=[inner], orelse=[], type_comment=None), node)
 
 
+def _inline_local_contextmanagers(fn):
+    """N12: a parameterless generator-based context manager that is DEFINED in this function and used by exactly one `with`
+    of it is that `with` written as try/finally:
+
+        @contextlib.contextmanager                      PRE
+        def cm():                                       x = V
+            PRE                                  ==>    try:
+            try: yield V                                    BODY
+            finally: POST                               finally:
+        with cm() as x: BODY                                POST
+
+    (also `yield V` without try: POST runs only on a normal end - not rewritten.) The manager's own locals are renamed apart unless
+    it declares them `nonlocal`; it reads the enclosing function's variables exactly as the inlined statements do."""
+    import copy
+
+    changed = False
+    for blk_owner in [n for n in ast.walk(fn) if hasattr(n, "body") and isinstance(getattr(n, "body"), list)]:
+        for fld in ("body", "orelse", "finalbody"):
+            blk = getattr(blk_owner, fld, None)
+            if not isinstance(blk, list):
+                continue
+            for i, st in enumerate(list(blk)):
+                if not (isinstance(st, (ast.With, ast.AsyncWith)) and len(st.items) == 1 and isinstance(st.items[0].context_expr, ast.Call)
+                        and isinstance(st.items[0].context_expr.func, ast.Name) and not st.items[0].context_expr.args and not st.items[0].context_expr.keywords):
+                    continue
+                nm = st.items[0].context_expr.func.id
+                defs = [d for d in fn.body if isinstance(d, (ast.FunctionDef, ast.AsyncFunctionDef)) and d.name == nm]
+                if len(defs) != 1:
+                    continue
+                d = defs[0]
+                if not any(ast.unparse(x).split(".")[-1] in ("contextmanager", "asynccontextmanager") for x in d.decorator_list) or len(d.decorator_list) != 1:
+                    continue
+                if isinstance(d, ast.AsyncFunctionDef) != isinstance(st, ast.AsyncWith):
+                    continue
+                a = d.args
+                if a.args or a.vararg or a.kwarg or a.kwonlyargs or a.posonlyargs:
+                    continue
+                uses = [n for n in ast.walk(fn) if isinstance(n, ast.Name) and n.id == nm]
+                if len(uses) != 1:
+                    continue
+                body = [x for x in d.body if not (isinstance(x, ast.Expr) and isinstance(x.value, ast.Constant))]
+                nonlocals = {n_ for x in body if isinstance(x, ast.Nonlocal) for n_ in x.names}
+                body = [x for x in body if not isinstance(x, ast.Nonlocal)]
+                if not body or not isinstance(body[-1], ast.Try) or body[-1].handlers or body[-1].orelse or not body[-1].finalbody:
+                    continue
+                t = body[-1]
+                if len(t.body) != 1 or not (isinstance(t.body[0], ast.Expr) and isinstance(t.body[0].value, ast.Yield)):
+                    continue
+                pre = body[:-1]
+                if any(isinstance(n, (ast.Yield, ast.YieldFrom, ast.Return, ast.FunctionDef, ast.AsyncFunctionDef, ast.Lambda)) for x in pre + t.finalbody for n in ast.walk(x)):
+                    continue
+                pre, post = copy.deepcopy(pre), copy.deepcopy(t.finalbody)
+                yv = copy.deepcopy(t.body[0].value.value)
+                own = {n.id for x in pre + post for n in ast.walk(x) if isinstance(n, ast.Name) and isinstance(n.ctx, (ast.Store, ast.Del))} - nonlocals
+                ren = {n_: f"_{nm}__{n_}" for n_ in own}
+                for x in pre + post + ([yv] if yv is not None else []):
+                    for n in ast.walk(x):
+                        if isinstance(n, ast.Name) and n.id in ren:
+                            n.id = ren[n.id]
+                new = list(pre)
+                ov = st.items[0].optional_vars
+                if ov is not None:
+                    new.append(ast.copy_location(ast.Assign(targets=[ov], value=yv if yv is not None else ast.Constant(value=None), type_comment=None), st))
+                new.append(ast.copy_location(ast.Try(body=st.body, handlers=[], orelse=[], finalbody=post), st))
+                j = blk.index(st)
+                blk[j:j + 1] = new
+                fn.body.remove(d)
+                changed = True
+    if changed:
+        ast.fix_missing_locations(fn)
+    return fn
+
+
 class _PerFunction(ast.NodeTransformer):
     def visit_FunctionDef(self, node: ast.FunctionDef) -> ast.AST:
         self.generic_visit(node)
+        node = _inline_local_contextmanagers(node)
         node = _YieldFromGenexp(node).visit(node)
         return _Accumulate(node).visit(node)
 
     def visit_AsyncFunctionDef(self, node: ast.AsyncFunctionDef) -> ast.AST:
         self.generic_visit(node)
+        node = _inline_local_contextmanagers(node)
         return _Accumulate(node).visit(node)
 
 
